@@ -643,9 +643,14 @@ def run(shape, args, ctx):
     except (PropertyViolation, Truncated):
         raise
     except Exception as e:
-        import traceback
-        tb = traceback.format_exc().splitlines()
-        ctx.fail('run did not return: an exception escaped the simulator', f'{type(e).__name__}: {e} | ' + ' | '.join(tb[-4:]))
+        with ctx.notrace():
+            import traceback
+            try:
+                tb = traceback.format_exception(type(e), e, e.__traceback__, limit=-4)
+                detail = ' | '.join(x.strip() for x in tb)[-600:]
+            except Exception:
+                detail = type(e).__name__
+        ctx.fail('run did not return: an exception escaped the simulator', detail)
 
 
 # =====================================================================================================
@@ -1298,3 +1303,198 @@ class ResourceMon(Monitor):
 
 
 MONITORS.update({'value': ValueMon, 'data': DataMon, 'recurrence': Recurrence, 'resource': ResourceMon})
+
+
+# =====================================================================================================
+# C17 batching, C08 routing
+# =====================================================================================================
+class BatchMon(Monitor):
+    """C17: exact batch sizes, order preserved, no acceptance while unpacking, history reaches contained parts."""
+
+    def attach(self):
+        w = self.w
+        self.arrived = {}     # batcher -> leaf parts in arrival order
+        self.left = {}        # batcher -> leaf parts in leaving order
+        self.size = {}
+        for n in w.order:
+            if w.kind[n] == 'batcher':
+                b = w.dev[n]
+                self.arrived[n], self.left[n] = [], []
+                self.size[n] = b.output_batch_size
+                b.add_receive_part_callback(self._in)
+                for dn in w.order:
+                    d = w.dev[dn]
+                    if b in getattr(d, '_upstream', []) and hasattr(d, 'add_receive_part_callback'):
+                        d.add_receive_part_callback(lambda dev, item, n=n: self._out(n, dev, item))
+
+    def _in(self, bat, item):
+        w, ctx = self.w, self.ctx
+        if w.probe_depth:
+            return
+        n = bat.name
+        with ctx.notrace():
+            pending = len(self.arrived[n]) - len(self.left[n]) - (len(bat._in_progress_batch.parts) if bat._in_progress_batch else 0)
+            ctx.require(pending == 0 and bat._output is None,
+                        'batcher accepted new input while it had parts left to unpack or an output waiting', n)
+            self.arrived[n] += leaves(item)
+            if isinstance(item, Batch):
+                ctx.goal('batch_unpacked')
+                if len(item.parts) == 0:
+                    ctx.goal('empty_batch_input')
+
+    def _out(self, n, dev, item):
+        w, ctx = self.w, self.ctx
+        if w.probe_depth:
+            return
+        with ctx.notrace():
+            size = self.size[n]
+            if size is None:
+                ctx.require(not isinstance(item, Batch), 'single-part batcher emitted a batch', n)
+            else:
+                ctx.require(isinstance(item, Batch) and len(item.parts) == size, 'batcher emitted a batch that does not have exactly n parts', n)
+                ctx.goal('full_batch_emitted')
+            self.left[n] += leaves(item)
+            k = len(self.left[n])
+            ctx.require(k <= len(self.arrived[n]) and all(a is b for a, b in zip(self.left[n], self.arrived[n])),
+                        'parts left the batcher in a different order than they arrived', n)
+
+    def after_event(self, ev):
+        w, ctx = self.w, self.ctx
+        with ctx.notrace():
+            for n in self.arrived:
+                b = w.dev[n]
+                inside = leaves(b._part) + (list(b._in_progress_batch.parts) if b._in_progress_batch else []) + leaves(b._output)
+                gone = len(self.left[n])
+                rest = self.arrived[n][gone:]
+                # what is still inside, in processing order: output, then batch under construction, then unconsumed input
+                order = leaves(b._output) + (list(b._in_progress_batch.parts) if b._in_progress_batch else []) + leaves(b._part)
+                ctx.require(len(order) == len(rest) and all(a is c for a, c in zip(order, rest)),
+                            'batcher content is not the not-yet-emitted suffix of its input, in order', n)
+                if b._in_progress_batch is not None and self.size[n] is not None:
+                    ctx.require(len(b._in_progress_batch.parts) < self.size[n], 'batch under construction reached n without being emitted', n)
+                    ctx.goal('partial_batch_waiting')
+            for snk in w.devices_of('sink'):
+                for item in snk.collected_parts:
+                    for leaf in leaves(item):
+                        names = [d.name for d in leaf.routing_history]
+                        if isinstance(item, Batch):
+                            ctx.require(names[-1] == snk.name, 'routing history update of a batch did not reach a contained part', snk.name)
+                            ctx.goal('history_reached_contained_part')
+
+
+class RoutingMon(Monitor):
+    """C08."""
+
+    def attach(self):
+        w = self.w
+        self.visits = {}        # id(part) -> [device names with a slot that accepted it, in order]
+        self.hist_len = {}
+        self.idle_since = {}
+        self.sink_order = {n: [] for n in w.order if w.kind[n] == 'sink'}
+        self.toggled = None
+        for n in w.order:
+            d, k = w.dev[n], w.kind[n]
+            if k in ('handler', 'proc', 'buffer', 'sink', 'batcher'):
+                d.add_receive_part_callback(self._recv)
+                self.idle_since[n] = 0
+        self.parallel = self.w.spec.get('idle_longest')      # list of parallel device names or None
+
+    def _recv(self, dev, part):
+        w, ctx = self.w, self.ctx
+        if w.probe_depth:
+            return
+        n = dev.name
+        with ctx.notrace():
+            ctx.require(not dev.block_input, 'device received a part while its input was blocked', n)
+            for leaf in leaves(part):
+                self.visits.setdefault(id(leaf), []).append(n)
+            if n in self.sink_order:
+                self.sink_order[n].append(part)
+            if self.parallel and n in self.parallel:
+                now = w.now()
+                for o in self.parallel:
+                    od = w.dev[o]
+                    if o != n and od._part is None and od._output is None and od.is_operational():
+                        ctx.require(self.idle_since[n] <= self.idle_since[o],
+                                    'part went to a parallel device although another one had been idle longer', f'{n} instead of {o}')
+                        ctx.goal_if('idle_longest_decided', self.idle_since[n] < self.idle_since[o])
+
+    def before_op(self, i, op):
+        if op['k'] in ('block', 'unblock'):
+            self.toggled = op['dev']
+
+    def _edges(self):
+        w = self.w
+        up = {d['name']: d.get('up', []) for d in w.spec['devices']}
+        groups = {g['name']: g['devices'] for g in w.spec.get('groups', [])}
+        return up, groups
+
+    def after_event(self, ev):
+        w, ctx = self.w, self.ctx
+        up, groups = self._edges()
+        kind = w.kind
+        with ctx.notrace():
+            now = w.now()
+            for n in self.idle_since:
+                d = w.dev[n]
+                busy = d._part is not None or d._output is not None
+                st = getattr(self, '_busy', {})
+                if st.get(n, False) and not busy:
+                    self.idle_since[n] = now
+                st[n] = busy
+                self._busy = st
+            for part in w.generated:
+                hist = [d.name for d in part.routing_history]
+                old = self.hist_len.get(id(part), 0)
+                for nm in hist[old:]:
+                    d = w.dev.get(nm)
+                    if d is not None and d.block_input and self.toggled != nm:
+                        ctx.fail('part entered a device whose input is blocked', nm)
+                self.hist_len[id(part)] = len(hist)
+                # walk check with the group-path stack
+                stack = []
+                prev = None
+                slots = []
+                for nm in hist:
+                    k = kind.get(nm)
+                    ctx.require(k is not None, 'routing history names an unknown device', nm)
+                    if prev is None:
+                        ctx.require(k == 'source', 'routing history does not start at a source', nm)
+                    else:
+                        pk = kind[prev]
+                        ok = prev in up.get(nm, [])
+                        if pk == 'path' and stack and stack[-1] == prev:
+                            g = next(d['group'] for d in w.spec['devices'] if d['name'] == prev)
+                            ok = ok or nm == groups[g][0]
+                        cur = prev
+                        while not ok and stack:
+                            # leaving a group: cur is the group's last device, the part continues downstream of the
+                            # innermost path it entered through (which may itself be the last device of an outer group)
+                            g = next(d['group'] for d in w.spec['devices'] if d['name'] == stack[-1])
+                            if cur != groups[g][-1]:
+                                break
+                            cur = stack.pop()
+                            if cur in up.get(nm, []):
+                                ok = True
+                                ctx.goal('left_group_through_entry_path')
+                        ctx.require(ok, 'routing history is not a walk along configured connections (or leaves a group through '
+                                        'another path than it entered)', f'part #{part.idx}: {prev} -> {nm} in {hist}')
+                    if k == 'path':
+                        stack.append(nm)
+                        ctx.goal('entered_group')
+                    if k == 'gate':
+                        ctx.require(bool(w.dev[nm].pred(w.dev[nm], part)), 'part passed a gate whose predicate rejects it', nm)
+                        ctx.goal('passed_gate')
+                    if k in ('handler', 'proc', 'buffer', 'sink', 'batcher'):
+                        slots.append(nm)
+                    prev = nm
+                ctx.require(slots == self.visits.get(id(part), []),
+                            'routing history != devices that actually received the part (gap or leftover of a refused hand-over)',
+                            f'part #{part.idx}: history {hist} visits {self.visits.get(id(part), [])}')
+            for n, order in self.sink_order.items():
+                got = w.dev[n].collected_parts
+                ctx.require(len(got) == len(order) and all(a is b for a, b in zip(got, order)), 'collected_parts not in arrival order', n)
+            self.toggled = None
+
+
+MONITORS.update({'batch': BatchMon, 'routing': RoutingMon})
